@@ -487,7 +487,10 @@ fn read_olde_ecl(
         )).ignore();
     }
     if matches!(format.timeline_array_kind(), TimelineArrayKind::Pcb { .. }) {
-        num_timelines -= 1;  // in these games, that last entry points to the end of the file
+        // in these games, that last entry points to the end of the file
+        num_timelines = num_timelines.checked_sub(1).ok_or_else(|| {
+            emitter.emit(error!("timeline table has no entries (not even the one for the end of the file)"))
+        })?;
     }
 
     let subs = sub_offsets.into_iter().enumerate().map(|(index, sub_offset)| {
